@@ -31,12 +31,12 @@ func init() {
 		ID:    "C10",
 		Level: "fault_enumeration",
 		Rule: "hostile-input enumeration against the real endpoints: a peer holding a valid credential (user bob) sends validly encrypted segments built by the independent encoder: protocol type {0..12,255} x session id {0, own, the live session id of another user, unknown} x seq {0,1,2^32-1} x unAck {0,2^32-1} x window {0,65535} x fragment {0,255} x status code of session segments {0,1,2,255} x length fields {consistent, payload length too large, too small, exactly 1025, 65535, prefix too large, invalid low-entropy fields}, singly and as second segment after a valid open; on both transports, from the session's own address and from a second address, against the server (with a victim session of user alice running) and against the client (hostile server); " +
-			"plus all unauthenticated inputs of C05's shapes; SOCKS5: every byte string of length <=5 over {00,01,02,03,04,05,ff} and every truncation / single-byte substitution of valid requests, responses and UDP headers into the request/response readers, the UDP datagram parser, UDPAssociateWrapper and the client-side authentication. Oracle: no panic in any goroutine, no deadlock, the victim's transfer completes. distinct = distinct hostile programs / byte strings",
+			"plus all unauthenticated inputs of C05's shapes; SOCKS5: every byte string of length <=5 over {00,01,02,03,04,05,ff} and every truncation / single-byte substitution of valid requests, responses and UDP headers into the request/response readers, the UDP datagram parser, UDPAssociateWrapper and the client-side authentication. tear-down of the UDP relay loops on a real session (egress control connection: byte / end of stream / reset; client close; downstream datagram in flight) under every schedule with <=1 deviation (quick) / <=2 (thorough), a deviation being a goroutine switch or a goroutine held up for 50 ms / 3 s before an atomic write. Oracle: no panic in any goroutine, no deadlock, the victim's transfer completes. distinct = distinct hostile programs / byte strings",
 		Assumptions: []string{
 			"a panic in any goroutine is a process crash (mieru has no recover)",
 		},
 		Units:          units,
-		QuickBudget:    80,
+		QuickBudget:    240,
 		ThoroughBudget: 900,
 	})
 }
@@ -533,5 +533,6 @@ func units(tier string) []runner.Unit {
 		}
 	}
 	us = append(us, socksUnits(tier)...)
+	us = append(us, loopUnits(tier)...)
 	return us
 }
